@@ -205,11 +205,21 @@ class PreOCF(ABC):
             )
             return
 
-        if path.suffix == ".json":
+        # mirror the format selection of save_metadata
+        suffix = path.suffix.lower()
+        if suffix == ".json":
             data = json.loads(path.read_text())
-        else:  # assume pickle by default
+        elif suffix in {".pkl", ".pickle"}:
             with path.open("rb") as fd:
                 data = pickle.load(fd)
+        else:
+            # the name does not imply the format: save_metadata wrote what its fmt
+            # argument said (JSON by default)
+            raw = path.read_bytes()
+            try:
+                data = json.loads(raw)
+            except ValueError:
+                data = pickle.loads(raw)
 
         if not isinstance(data, dict):
             raise ValueError("Metadata file did not contain a dict")
@@ -1035,13 +1045,19 @@ class RandomMinCRepPreOCF(PreOCF):
         if not path.exists():
             raise FileNotFoundError(f"Impact file not found: {path}")
 
-        # Determine format from file extension
-        if path.suffix == ".json":
-            with path.open("r") as fd:
-                impact_data = json.load(fd)
-        else:  # assume pickle
-            with path.open("rb") as fd:
-                impact_data = pickle.load(fd)
+        # export_impacts writes the format named by its fmt argument whatever the file is
+        # called: try the format the name suggests first, then the other one
+        raw = path.read_bytes()
+        if path.suffix.lower() == ".json":
+            try:
+                impact_data = json.loads(raw)
+            except ValueError:
+                impact_data = pickle.loads(raw)
+        else:
+            try:
+                impact_data = pickle.loads(raw)
+            except (pickle.UnpicklingError, ValueError, EOFError):
+                impact_data = json.loads(raw)
 
         # Validate the imported data
         if not isinstance(impact_data, dict):
